@@ -884,9 +884,8 @@ func (req *IdpAuthnRequest) MakeAssertionEl() error {
 	var signedAssertionBuf []byte
 	{
 		doc := etree.NewDocument()
-		doc.WriteSettings = canonicalWriteSettings
 		doc.SetRoot(signedAssertionEl)
-		signedAssertionBuf, err = doc.WriteToBytes()
+		signedAssertionBuf, err = serializeDocument(doc)
 		if err != nil {
 			return err
 		}
@@ -929,9 +928,8 @@ func (req *IdpAuthnRequest) PostBinding() (IdpAuthnRequestForm, error) {
 	}
 
 	doc := etree.NewDocument()
-	doc.WriteSettings = canonicalWriteSettings
 	doc.SetRoot(req.ResponseEl)
-	responseBuf, err := doc.WriteToBytes()
+	responseBuf, err := serializeDocument(doc)
 	if err != nil {
 		return form, err
 	}
